@@ -390,7 +390,7 @@ class HslAccess(SubCheck):
 
     def __init__(self, svg):
         self.svg = svg
-        self.p = Product(LAT9, LAT9, LAT9, [255, 128], NEWH)
+        self.p = Product(LAT9, LAT9, LAT9, [255, 128, 0, 1, 254], NEWH)     # alpha on and next to both ends of its range
 
     def size(self):
         return len(self.p)
